@@ -4,6 +4,9 @@ from harness import nsrun as N
 from vlib import fakes as F
 from vlib import ns
 
+# private-attribute groups (vlib/layout.py) the obligations of this module depend on
+LAYOUT = ['manager', 'coord', 'task', 'bex', 'tasksem', 'sws'] + ['defer', 'cci']
+
 EXPLANATION = (
     'C11: nested-schedule runs (engine NS) with the laziest consumer (request tasks start only when the submitter '
     'blocks) and with symbolic nested starts, limits symbolic in 1..3: (1) stream uploads - part buffers read from '
